@@ -109,6 +109,11 @@ def shape_cases(ctx):
         ("wrong kind", "start 2 %s %s wc s:61 i fin" % (c_int, c_nn)),
         ("write_row too long", "start 2 %s %s wr 3 i32:1 s:61 i32:2 i fin" % (c_int, c_nn)),
         ("write_row too short", "start 2 %s %s wr 1 i32:1 i fin" % (c_int, c_nn)),
+        # a last row left incomplete and closed implicitly: the closing call must refuse it
+        ("partial row at finish", "start 2 %s %s wr 2 i32:1 s:61 i wc i32:3 i fin" % (c_int, c_nn)),
+        ("partial row at finish_one", "start 2 %s %s wc i32:3 i fin1 done 0 0" % (c_int, c_nn)),
+        ("partial row at finish_error", "start 2 %s %s wc i32:3 i ferr 1064 6f6f7073" % (c_int, c_nn)),
+        ("partial row at drop", "start 2 %s %s wr 2 i32:1 s:61 i wc i32:3 i drop" % (c_int, c_nn)),
     ]
     for name, prog in variants:
         for binary in (False, True):
@@ -128,6 +133,16 @@ def shape_cases(ctx):
 def shape_oracle(case, obs):
     name, binary = case.meta["shape"]
     apis = [l for l in obs if l.startswith("api|")]
+    if name == "partial row at drop":
+        # Drop cannot return the error: it must surface as the result of run_on (parked, reported by the flush),
+        # and in no case may the short row reach the client as if it were complete
+        if result_of(obs) == "ok":
+            try:
+                decode_server(case, obs)
+            except Bad as e:
+                return [(None, "an incomplete row was dropped silently and the client receives a malformed resultset: %s" % e)]
+            return [(None, "an incomplete row was dropped but run_on returned Ok")]
+        return []
     if not any(l.startswith("api|err") for l in apis):
         # text mode: a wrong kind is not detectable (everything is a string); surplus cells are reported by end_row
         if not binary and name == "wrong kind":
